@@ -94,6 +94,30 @@ class Origins:
         # 3. by-value items of copied()/keys() over a row
         return self.elem_of_row(d, path, depth, by_value=True)
 
+    def item_origin(self, d, path, deref):
+        """origin of (component `path` of) an item of the iterator value d; deref: the item is a
+        reference and the id is read through it"""
+        if d is None or d == "CYCLE":
+            return None
+        if deref:
+            return self.elem_of_row(d, path, 0)
+        if d[0] == "call" and d[1] in TRAIT_ITERS and d[3]:
+            if path in TRAIT_ITERS[d[1]]:
+                D = self.digraph_region(d[3][0])
+                if D is not None:
+                    return ("ENDPOINT", D)
+            return None
+        return self.elem_of_row(d, path, 0, by_value=True)
+
+    def rows_iter_owner(self, x):
+        """x iterates over the rows of D.arcs -> D"""
+        x = strip_ref(x)
+        if x[0] == "call" and x[1] in ("slice::iter",) and x[3]:
+            return self.arcs_field_owner(strip_ref(x[3][0]))
+        if x[0] == "at":
+            return self.arcs_field_owner(x)
+        return None
+
     def is_row(self, t, depth):
         """term t denotes (a reference to) a row container of digraph D -> D"""
         an = self.an
@@ -140,6 +164,17 @@ class Origins:
         # strip copied()/keys()/iter()
         t = d
         keyish = False
+        if t[0] == "call" and t[1] == "core::iter::traits::iterator::Iterator::copied" and t[3] \
+                and t[3][0][0] == "call" and t[3][0][1] == "core::iter::traits::iterator::Iterator::flatten":
+            t = t[3][0]
+        if t[0] == "call" and t[1] == "core::iter::traits::iterator::Iterator::flatten" and t[3] and path == ():
+            # every row of D.arcs, flattened: the items are the heads (set rows only)
+            D = self.rows_iter_owner(t[3][0])
+            if D is not None:
+                ri = self.an.region_info.get(D)
+                if ri and ri["ty"].get("name") == "AdjacencyList":
+                    return ("HEAD", D)
+            return None
         while t[0] == "call" and t[1] in ("core::iter::traits::iterator::Iterator::copied",
                                           "alloc::collections::btree::set::BTreeSet::iter",
                                           "alloc::collections::btree::map::BTreeMap::keys",
